@@ -29,9 +29,12 @@ pub mod fasta {
         spec fn it_lawful(&self) -> bool;
         #[verifier::prophetic] spec fn it_views(&self) -> Seq<Seq<u8>>;
         spec fn iv(x: &Self::Item) -> Seq<u8>;
+        /// termination measure (not prophetic)
+        spec fn it_dec(&self) -> nat;
         fn next(&mut self) -> (r: Option<Self::Item>)
             requires old(self).it_pre()
             ensures final(self).it_pre(), final(self).it_lawful() == old(self).it_lawful(),
+                r is Some ==> final(self).it_dec() < old(self).it_dec(),
                 old(self).it_lawful() ==> (
                     (old(self).it_views().len() == 0 ==> r is None && final(self).it_views().len() == 0)
                     && (old(self).it_views().len() > 0 ==> (r matches Some(x) && Self::iv(&x) == old(self).it_views()[0])
@@ -900,7 +903,7 @@ pub mod fasta {
         spec fn piece(&self, p: (&'a usize, &'a usize)) -> Seq<u8> { trim(self.data@.subrange(*p.0 + 1, *p.1 as int)) }
         #[verifier::prophetic]
         spec fn swf(&self) -> bool {
-            &&& self.pos_iter.obeys_prophetic_iter_laws()
+            &&& self.pos_iter.obeys_prophetic_iter_laws() && self.pos_iter.decrease() is Some
             &&& forall|i: int| 0 <= i < self.rem().len() ==> *(#[trigger] self.rem()[i]).0 + 1 <= *self.rem()[i].1 <= self.data@.len()
         }
         #[verifier::prophetic]
@@ -915,6 +918,7 @@ pub mod fasta {
     #[verifier::prophetic]
     spec fn it_views(&self) -> Seq<Seq<u8>> { self.views() }
     spec fn iv(x: &&'a [u8]) -> Seq<u8> { (*x)@ }
+    spec fn it_dec(&self) -> nat { match self.pos_iter.decrease() { Some(n) => n as nat, None => 0 } }
 //@fn fasta::Iterator for SeqLines::next ret=r tags=C20,C13,C12,C06
 //@spec
         ensures
@@ -927,6 +931,8 @@ pub mod fasta {
         proof {
             assert(old(self).rem().len() > 0 ==> self.views() =~= old(self).views().drop_first());
             assert(old(self).rem().len() == 0 ==> self.views() =~= Seq::<Seq<u8>>::empty());
+            assert(vx_r is Some ==> old(self).pos_iter.decrease() is Some && self.pos_iter.decrease() is Some
+                && self.pos_iter.decrease().unwrap() < old(self).pos_iter.decrease().unwrap());
         }
 //@end
 //@fn fasta::Iterator for SeqLines::size_hint ret=r tags=C20
@@ -962,6 +968,84 @@ pub mod fasta {
 //@spec
         ensures
             [C20|fasta.SeqLines.len] r == self.views().len(),
+//@end
+}
+
+    /// lines_v in terms of the pairs the line iterator walks over
+    proof fn lemma_concat_push(ls: Seq<Seq<u8>>, x: Seq<u8>)
+        ensures concat(ls.push(x)) == concat(ls) + x
+    {
+        assert(ls.push(x).drop_last() =~= ls);
+    }
+
+//@impl_open fasta::Record::head
+    spec fn rwf(&self) -> bool;
+    spec fn head_s(&self) -> Seq<u8>;
+    /// the sequence without any line terminators
+    spec fn seq_s(&self) -> Seq<u8>;
+//@sig fasta::Record::head ret=r tags=C13
+//@spec
+        requires self.rwf(),
+        ensures
+            [C13,C12,C01|fasta.Record.head] r@ == self.head_s(),
+//@end
+}
+
+//@impl_open fasta::RefRecord::seq_lines
+    spec fn rwf(&self) -> bool { self.buf_pos.rwf(self.buffer@) }
+    spec fn head_v(&self) -> Seq<u8> { self.buf_pos.head_v(self.buffer@) }
+    spec fn lines_v(&self) -> Seq<Seq<u8>> { self.buf_pos.lines_v(self.buffer@) }
+
+//@fn fasta::RefRecord::seq_lines ret=r tags=C13,C20,C12,C01,C06
+//@spec
+        requires
+            self.rwf(),
+        ensures
+            [C13,C20,C01|fasta.seq_lines.yields_all_lines_in_order] r.swf() && r.views() == self.lines_v() && r.data@ == self.buffer@,
+//@body_start
+        proof { self.buf_pos.lemma_offsets(self.buffer@); }
+//@tail vx_r
+        proof {
+            let n = self.buf_pos.seq_pos@.len();
+            assert(vx_r.rem().len() == n - 1);
+            assert forall|i: int| 0 <= i < n - 1 implies *(#[trigger] vx_r.rem()[i]).0 == self.buf_pos.seq_pos@[i] && *vx_r.rem()[i].1 == self.buf_pos.seq_pos@[i + 1] by { }
+            assert(vx_r.views() =~= self.lines_v());
+        }
+//@end
+
+//@fn fasta::RefRecord::num_seq_lines ret=r tags=C13,C20
+//@spec
+        requires
+            self.rwf(),
+        ensures
+            [C13,C20|fasta.num_seq_lines] r == self.lines_v().len(),
+//@end
+
+//@fn fasta::RefRecord::owned_seq ret=r tags=C13,C04
+//@spec
+        requires
+            self.rwf(),
+        ensures
+            [C13,C04|fasta.owned_seq.is_concatenation_of_lines] r@ == concat(self.lines_v()),
+//@loop 0 r8=vx_it
+            invariant
+                vx_it.swf() && vx_it.data@ == self.buffer@,
+                vx_it.views().len() <= self.lines_v().len(),
+                vx_it.views() =~= self.lines_v().subrange(self.lines_v().len() - vx_it.views().len(), self.lines_v().len() as int),
+                [C13|fasta.owned_seq.inv.prefix_copied] seq@ == concat(self.lines_v().subrange(0, self.lines_v().len() - vx_it.views().len())),
+            ensures
+                seq@ == concat(self.lines_v()),
+            decreases vx_it.it_dec(),
+//---pre
+            let ghost k0 = self.lines_v().len() - vx_it.views().len();
+            proof { assert(self.lines_v().subrange(0, self.lines_v().len() as int) =~= self.lines_v()); }
+//@at depth=2 kw=seq nth=0 expect="seq\.extend\("
+            proof {
+                broadcast use axiom_ref_items_slice;
+                let ls = self.lines_v();
+                assert(ls.subrange(0, k0 + 1) =~= ls.subrange(0, k0).push(ls[k0]));
+                lemma_concat_push(ls.subrange(0, k0), ls[k0]);
+            }
 //@end
 }
 
